@@ -9,7 +9,7 @@ import struct
 
 FLOATS = [0.5, 1.5, 2.25, 0.125, 3.0, 10.5, 0.75]
 HAZARDS = ["retype-int-then-float", "retype-float-then-int", "retype-in-branch", "retype-in-loop", "retype-aug", "int-true-division", "and-or-value",
-           "neg-bool", "stale-var-type", "branch-order", "loop-last-wins", "loop-last-wins-aug", "bool-aug", "copy-after-aug", "builtin-float-result", "sibling-branch-narrowing"]
+           "neg-bool", "stale-var-type", "branch-order", "loop-last-wins", "loop-last-wins-aug", "bool-aug", "copy-after-aug", "builtin-float-result", "sibling-branch-narrowing", "tuple-retype", "comprehension-shadow", "while-new-float"]
 
 
 def f64hex(x: float) -> str:
@@ -192,6 +192,15 @@ class TyGen:
             return [("if", [cond], [[("as", x, a)]], [("as", x, b)]), ("wr", x)]
         if h == "loop-last-wins":
             return [("for", self.fresh("k"), 2, [("as", x, ("i", 1)), ("as", x, ("add", ("v", x), ("f", 0.5)))]), ("wr", x)]
+        if h == "tuple-retype":
+            # `x, prev = 1, x`: prev takes the OLD (float) x; sequentially: prev first, then x
+            return [("as", x, ("f", 2.5)), ("tup", x, ("i", 1), x + "p", ("v", x)), ("wr", x + "p"), ("wr", x)]
+        if h == "comprehension-shadow":
+            # a comprehension variable does not leak: the outer float keeps its type and value
+            return [("as", x, ("f", 2.5)), ("comp", x + "l", x), ("as", x + "k", ("v", x)), ("wr", x + "k")]
+        if h == "while-new-float":
+            n = self.fresh("k")
+            return [("as", n, ("i", 0)), ("while", n, r.randint(1, 3), [("as", x, ("mul", ("v", n), ("f", 0.5))), ("aug", n, "add", ("i", 1))]), ("wr", x)]
         if h == "sibling-branch-narrowing":
             # an earlier branch re-assigns a float name with an int; a LATER sibling branch first-assigns a new name from it
             return [("as", x, ("f", 2.5)), ("if", [("lt", ("i", 1), ("i", 0)), ("lt", ("i", 0), ("i", 1))],
@@ -260,6 +269,13 @@ def py_block(block, ind):
             out.append(f"{pad}{s[1]} {PYOP[s[2]]}= {py_e(s[3])}")
         elif k == "wr":
             out.append(f"{pad}mon.write({s[1]})")
+        elif k == "tup":
+            out.append(f"{pad}{s[1]}, {s[3]} = {py_e(s[2])}, {py_e(s[4])}")
+        elif k == "comp":
+            out.append(f"{pad}{s[1]} = [{s[2]} * 2 for {s[2]} in range(3)]")
+        elif k == "while":
+            out.append(f"{pad}while {s[1]} < {s[2]}:")
+            out += py_block(s[3], ind + 1)
         elif k == "if":
             for j, (c, b) in enumerate(zip(s[1], s[2])):
                 out.append(f"{pad}{'if' if j == 0 else 'elif'} {py_e(c)}:")
@@ -309,7 +325,11 @@ def sx_block(block):
             blks = [f"(blk {sx_block(b)})" for b in s[2]] + ([f"(blk {sx_block(s[3])})"] if s[3] is not None else [])
             out.append(f"(if {' '.join(blks)})")
         elif k == "for":
-            out.append(f"(loop (as {s[1]} (i 0)) {sx_block(s[3])})")      # the loop variable is an int bound by the for header
+            out.append(f"(loop (as {s[1]} (i 0)) {sx_block(s[3])})")
+        elif k == "while":
+            out.append(f"(loop {sx_block(s[3])})")
+        elif k == "tup":
+            out.append(f"(as {s[3]} {sx_e(s[4])}) (as {s[1]} {sx_e(s[2])})")      # the loop variable is an int bound by the for header
     return " ".join(out)
 
 
